@@ -59,12 +59,21 @@ type Session struct {
 	Ops  []oper.Operator
 	TEnv *types.Env
 	VEnv *val.Env
-	cur  *Obs
+	// UserVals are the real function values of the harness functions, for
+	// registration in a facade engine
+	UserVals []*val.Val
+	cur      *Obs
+}
+
+// Begin starts a new observation (for executions driven through the facade).
+func (s *Session) Begin() *Obs {
+	s.cur = &Obs{}
+	return s.cur
 }
 
 // NewSession registers the built-ins and then the user functions in order.
 func NewSession(user []*ref.Fun) *Session {
-	s := &Session{TEnv: types.NewEnv(), VEnv: val.NewEnv()}
+	s := &Session{TEnv: types.NewEnv(), VEnv: val.NewEnv(), cur: &Obs{}}
 	s.Ops = append(s.Ops, oper.BuiltIn()...)
 	for _, f := range fun.BuiltIn() {
 		s.TEnv.RegisterFun(f.Type)
@@ -72,6 +81,7 @@ func NewSession(user []*ref.Fun) *Session {
 	}
 	for _, f := range user {
 		v := s.hostFun(f)
+		s.UserVals = append(s.UserVals, v)
 		s.TEnv.RegisterFun(v.Type)
 		s.VEnv.RegisterFun(v)
 	}
